@@ -52,6 +52,10 @@ _k("quot", [N, N], p.Quotient, ["div"])
 _k("floordiv", [N, N], p.FloorDiv)
 _k("rem", [N, N], p.Remainder)
 _k("pow", [N, "exp"], p.Power, ["pow"])
+# powers with the constant exponents that printers / code generators special-case
+_k("pow2", [N], lambda a: p.Power(a, 2), ["pow"])
+_k("pow1", [N], lambda a: p.Power(a, 1), ["pow"])
+_k("pow0", [N], lambda a: p.Power(a, 0), ["pow"])
 _k("lshift", [N, "shift"], p.LeftShift, ["bit"])
 _k("rshift", [N, "shift"], p.RightShift, ["bit"])
 _k("bnot", [N], p.BitwiseNot, ["bit"])
@@ -105,7 +109,7 @@ _k("deriv", [N], lambda c: p.Derivative(c, ("u",)), ["deriv"])
 _k("slice2", [N, N], lambda a, b: p.Slice((a, b)), ["slice"])
 _k("slice3", [N, N, N], lambda a, b, c: p.Slice((a, b, c)), ["slice"])
 
-ARITH = ["sum2", "sum3", "prod2", "prod3", "quot", "floordiv", "rem", "pow"]
+ARITH = ["sum2", "sum3", "prod2", "prod3", "quot", "floordiv", "rem", "pow", "pow2"]
 BITS = ["lshift", "rshift", "bnot", "bor2", "bxor2", "band2", "bor3", "bxor3", "band3"]
 LOGIC = ["lnot", "lor2", "land2", "lor3", "land3"]
 CMPS = ["cmp_eq", "cmp_ne", "cmp_lt", "cmp_le", "cmp_gt", "cmp_ge"]
